@@ -2008,5 +2008,9 @@ class MergedResult(IteratorResult[Unpack[_Ts]]):
     def _soft_close(self, hard: bool = False, **kw: Any) -> None:
         for r in self._results:
             r._soft_close(hard=hard, **kw)
+        # also drop our own chained iterator and mark ourselves closed, so
+        # that rows of a partially consumed sub-result are discarded and
+        # fetches after close() raise ResourceClosedError
+        super()._soft_close(hard=hard)
         if hard:
             self.closed = True
